@@ -1,5 +1,6 @@
 pub mod component;
 pub mod differential;
+pub mod gated;
 pub mod hostile;
 pub mod lifecycle;
 pub mod lockstep;
@@ -38,6 +39,7 @@ pub fn dispatch(engine: &str, ctx: &Ctx, rng: Rng, rep: &mut Report) {
         "lockstep" => lockstep::run(ctx, rng, rep),
         "hostile" => hostile::run(ctx, rng, rep),
         "differential" => differential::run(ctx, rng, rep),
+        "gated" => gated::run(ctx, rng, rep),
         "close" => lifecycle::run_close(ctx, rng, rep),
         "waitrace" => lifecycle::run_waitrace(ctx, rng, rep),
         "grid" => lifecycle::run_grid(ctx, rng, rep),
